@@ -239,7 +239,8 @@ pub fn run(ctx: &Ctx) -> Outcome {
     let _ = std::fs::create_dir_all(&scratch);
     let n_shards = 16u64;
     let n_rand = ctx.tier.pick(200usize, 20_000usize);
-    let mk_every = ctx.tier.pick(2usize, 1usize);
+    let mk_every = 1usize; // every transition takes part in both tiers (quick used to take every second one and missed right/Indian/Chagos 1996, seeded change C10-r8m1)
+    let right_ds: Vec<i64> = ctx.tier.pick(vec![-2i64, -1, 0, 1, 2, 10, 26, 27, 28, 1800], (-30i64..=30).chain([-3600, -1800, -900, 900, 1800, 3600]).collect());
     let fr = &files;
     let rs = par_shards(n_shards, |shard, st| {
         let mut dr = Drawer::new(ctx, "instants", shard);
@@ -316,13 +317,13 @@ pub fn run(ctx: &Ctx) -> Outcome {
                 let trs = zr.transitions();
                 for (k, t) in trs.iter().enumerate() {
                     let Some(ut) = oleap::g(&leaps, t.unix_leap_time()) else { continue };
-                    if ut < 78796800 || ut > hi || (k + fi) % (mk_every * 3) != 0 {
+                    if ut < 78796800 - 86400 || ut > hi {
                         continue;
                     }
                     let off_before = if k == 0 { zr.local_time_types()[0].ut_offset() } else { zr.local_time_types()[trs[k - 1].local_time_type_index()].ut_offset() };
                     let off_after = zr.local_time_types()[t.local_time_type_index()].ut_offset();
                     for base in [off_before, off_after] {
-                        for d in [-1i64, 0, 1, 10, 26, 27, 28, 1800] {
+                        for &d in &right_ds {
                             let l = ut + base as i64 + d;
                             if offs.iter().any(|o| last_u.map(|lu| l - *o as i64 >= lu).unwrap_or(true)) {
                                 continue;
